@@ -1,5 +1,5 @@
 /-! Model of src/search/hashtable.rs : `Hashtable<T>` over a `Vec<T>`, generic in the entry type.
-`none` = the Rust code panics (remainder by zero / index out of bounds on a zero-slot table). -/
+Since the upstream fix a zero-slot table answers every lookup with `default` and ignores stores. -/
 namespace Rawr
 
 structure Table (α : Type) where
@@ -24,15 +24,13 @@ def len (t : Table α) : Nat := t.entries.size
 /-- `get_idx` : `key as usize % len` (panics on an empty table). -/
 def idx (t : Table α) (key : Nat) : Option Nat := if t.entries.size = 0 then none else some (key % t.entries.size)
 
+/-- `poll`: an empty table answers with the empty entry. (`none` is kept in the type for callers; it no longer occurs.) -/
 def poll (t : Table α) (key : Nat) : Option α :=
-  match t.idx key with
-  | none => none
-  | some i => t.entries[i]?
+  if t.entries.size = 0 then some default else t.entries[key % t.entries.size]?
 
+/-- `add`: an empty table ignores the store. -/
 def add (t : Table α) (key : Nat) (e : α) : Option (Table α) :=
-  match t.idx key with
-  | none => none
-  | some i => some ⟨t.entries.setIfInBounds i e⟩
+  if t.entries.size = 0 then some t else some ⟨t.entries.setIfInBounds (key % t.entries.size) e⟩
 
 def clear (t : Table α) : Table α := ⟨Array.replicate t.entries.size default⟩
 
